@@ -139,6 +139,17 @@ class PathCtx:
             return False
         raise PathEnd()  # path condition itself infeasible
 
+    def entails(self, cond):
+        cond = sx.to_bool(cond)
+        if not is_sym(cond):
+            return bool(cond)
+        self.solver.push()
+        self.solver.add(z3.Not(cond))
+        self.solver_calls += 1
+        r = self.solver.check()
+        self.solver.pop()
+        return r == z3.unsat
+
     def oblige(self, oid, goal, meta=None):
         """Record a proof obligation: pc => goal.  Afterwards the goal is assumed."""
         goal = sx.to_bool(goal)
@@ -958,6 +969,20 @@ class Interp:
                             yy >>= 1
                             bit += 1
                     return tot
+        if isinstance(op, (ast.BitOr, ast.BitXor)):
+            # disjoint bit ranges (x << k) | y with 0 <= y < 2^k: plain addition
+            for x, y in ((a, b), (b, a)):
+                for k in (4, 8, 12, 16, 24, 32):
+                    lo_ok = (0 <= y < (1 << k)) if not is_sym(y) else self.ctx.entails(z3.And(y >= 0, y < (1 << k)))
+                    if not lo_ok:
+                        continue
+                    if not is_sym(x):
+                        hi_ok = x >= 0 and x % (1 << k) == 0
+                    else:
+                        r = self.int_div(x, 1 << k, node, frame)[1]
+                        hi_ok = self.ctx.entails(z3.And(x >= 0, r == 0))
+                    if hi_ok:
+                        return x + y
         w = self.ctx.ghost.get('bitwidth', 64)
         rng = 1 << w
         for x in (a, b):
